@@ -31,7 +31,10 @@ let rec show_masked (c : Cmd.cmd) (node : Cmd.cmd option) (m : Matcher.matches) 
   let subs = match sub with
     | None -> ""
     | Some (name, sm) ->
-      let next = match node with Some n -> Cmd.find_subcommand n name | None -> None in
+      (* the matches of an external subcommand carry Id::EXTERNAL ("") *)
+      let Matcher.Matches (sargs, _) = sm in
+      let is_ext = Stdlib.List.exists (fun (i, _) -> i = []) sargs in
+      let next = match node with Some n when not is_ext -> Cmd.find_subcommand n name | _ -> None in
       let s = match next with
         | Some sc -> show_masked sc (Some sc) sm
         | None -> show_masked c None sm in
